@@ -170,6 +170,9 @@ pub struct RefResult {
     pub draws: Vec<RefDraw>,
     /// cumulative regrets at the end, per player and infoset (diagnostics)
     pub cum_regret: [Vec<Vec<f64>>; 2],
+    /// some infoset received strategy weight that has (nearly) left the range of a double, so its
+    /// average is not a meaningful number in either implementation
+    pub avg_underflow: bool,
 }
 
 pub const MARGIN: f64 = 1e-9;
@@ -192,6 +195,8 @@ struct InfoState {
     mag: Vec<f64>,
     cum: Vec<f64>,
     strat: Vec<f64>,
+    /// received a contribution to its average with positive own reach
+    touched: bool,
 }
 
 fn discount_factor(t: u64, exp: f64) -> f64 {
@@ -224,6 +229,11 @@ fn regret_match(regret: &[f64], mag: &[f64], w: f64, tie: TieRule) -> (Vec<f64>,
     // residue relative to what was added to and subtracted from it has no robust sign.
     if fragile.is_none() && pos > 0.0 && regret.iter().zip(mag.iter()).any(|(r, m)| *m > 0.0 && r.abs() <= MARGIN * m) {
         fragile = Some("sign of one regret within margin of zero");
+    }
+    // near the bottom of the range of a double a number carries only a few significant bits
+    // (subnormals), so no relative margin means anything there
+    if fragile.is_none() && mag.iter().any(|m| *m > 0.0 && *m < 1e-280) {
+        fragile = Some("regret magnitudes in the subnormal range");
     }
     if pos > 0.0 {
         return (regret.iter().map(|r| if *r > 0.0 { r / pos } else { 0.0 }).collect(), fragile, false);
@@ -318,6 +328,7 @@ pub fn run(game: &RefGame, cfg: RunCfg) -> RefResult {
                 mag: vec![0.0; *k],
                 cum: vec![0.0; *k],
                 strat: vec![1.0 / *k as f64; *k],
+                touched: false,
             })
             .collect()
     });
@@ -334,6 +345,7 @@ pub fn run(game: &RefGame, cfg: RunCfg) -> RefResult {
         missing_draw: None,
         draws: Vec::new(),
         cum_regret: Default::default(),
+        avg_underflow: false,
     };
     let mut pass: u64 = 0;
     let mut visited = vec![false; n];
@@ -426,6 +438,9 @@ pub fn run(game: &RefGame, cfg: RunCfg) -> RefResult {
                             None => {
                                 // both players update, weighted by own reach
                                 let own = reach_p[i][*p];
+                                if own > 0.0 {
+                                    st.touched = true;
+                                }
                                 for (c, s) in st.cum.iter_mut().zip(st.strat.iter()) {
                                     *c += avg_weight * own * s * noise.next();
                                 }
@@ -442,6 +457,7 @@ pub fn run(game: &RefGame, cfg: RunCfg) -> RefResult {
                                 }
                             }
                             Some(_) => {
+                                st.touched = true;
                                 for (c, s) in st.cum.iter_mut().zip(st.strat.iter()) {
                                     *c += avg_weight * s * noise.next();
                                 }
@@ -600,6 +616,9 @@ pub fn run(game: &RefGame, cfg: RunCfg) -> RefResult {
         for st in infos[p].iter() {
             let tot: f64 = st.cum.iter().sum();
             let k = st.cum.len();
+            if st.touched && tot < 1e-250 {
+                res.avg_underflow = true;
+            }
             res.avg[p].push(if tot == 0.0 {
                 vec![1.0 / k as f64; k]
             } else {
